@@ -95,10 +95,18 @@ def templates(cfg):
     T("dup_group_key", lambda p, t: t >> p.group_by(t.g, t.g) >> p.summarize(n=p.count(), s=t.b.sum()))
     T("dup_group_key_add", lambda p, t: t >> p.group_by(t.g) >> p.group_by(t.g, t.p, add=True) >> p.summarize(n=p.count()))
     T("dup_group_key_window", lambda p, t: t >> p.group_by(t.g, "g") >> p.mutate(s=t.b.sum()) >> p.ungroup())
-    T("hidden_key_dropped", lambda p, t: t >> p.group_by(t.g) >> p.drop(t.g) >> p.summarize(n=p.count()))
-    T("hidden_key_overwritten", lambda p, t: t >> p.group_by(t.g) >> p.mutate(g=t.a) >> p.summarize(n=p.count(), s=t.b.sum()))
-    T("hidden_key_selected_away", lambda p, t: t >> p.group_by(t.g) >> p.select(t.a, t.b) >> p.summarize(m=t.a.max()))
     from . import temporal
 
     out += temporal.templates_for("C04", cfg)
     return out
+
+
+def rejections():
+    """summarize needs its grouping columns to be selected (group_by itself refuses hidden columns)"""
+    R = []
+    R.append(("hidden_key_dropped", S, lambda p, t: t >> p.group_by(t.g) >> p.drop(t.g) >> p.summarize(n=p.count()), "ValueError"))
+    R.append(("hidden_key_overwritten", S, lambda p, t: t >> p.group_by(t.g) >> p.mutate(g=t.a) >> p.summarize(n=p.count(), s=t.b.sum()), "ValueError"))
+    R.append(("hidden_key_selected_away", S, lambda p, t: t >> p.group_by(t.g) >> p.select(t.a, t.b) >> p.summarize(m=t.a.max()), "ValueError"))
+    R.append(("hidden_key_one_of_two", S, lambda p, t: t >> p.group_by(t.g, t.p) >> p.drop(t.p) >> p.summarize(n=p.count()), "ValueError"))
+    R.append(("hidden_key_after_alias", S, lambda p, t: t >> p.group_by(t.g) >> p.select(t.a) >> p.alias("z") >> p.summarize(m=p.C.a.max()), "ValueError"))
+    return R
